@@ -90,6 +90,13 @@ class Ctx:
     self.res['errors'].append(dict(clause=clause, message=message))
 
   def finish(self):
+    # safety net: a clause that ended as 'failed' must be backed by a replayed violation or an explicit harness error;
+    # otherwise the run would exit 0 with an unproved clause
+    named = {v['clause'] for v in self.res['violations']} | {e['clause'] for e in self.res['errors']}
+    for c in self.res['clauses']:
+      if c['status'] == 'failed' and c['name'] not in named and not any(n.startswith(c['name']) or c['name'].startswith(n) for n in named):
+        self.error(c['name'], f"clause failed without a replayed counterexample (config {json.dumps(c.get('config', {}), default=str)[:200]})")
+        named.add(c['name'])
     self.res['wall'] = time.time() - self.t0
     self.res['stats'] = smt.STATS.asdict()
     return self.res
@@ -108,7 +115,7 @@ def _json_default(o):
 # ---------------------------------------------------------------------------
 # polynomial-domain proving
 
-def interpret(fn, args, sp: Space):
+def interpret(fn, args, sp: Space, retrace=True):
   """Trace fn at float64 zeros shaped like args and interpret symbolically.
 
   Returns (flat list of outputs, treedef, interp).
@@ -118,7 +125,32 @@ def interpret(fn, args, sp: Space):
   it = Interp(sp)
   outs = it.run(closed, *args)
   treedef = jax.tree_util.tree_structure(out_shape)
+  # history independence: tracing the same call a second time must give the same program (same constants).  A difference means
+  # that the first use mutated hidden state (a cache, a table rescaled in place, ...): prove_close then replays two consecutive
+  # real calls and reports the discrepancy.
+  it.retrace_differs = None
+  if retrace and os.environ.get('DVERIF_NO_RETRACE') != '1':
+    try:
+      closed2 = jax.make_jaxpr(lambda *a_: fn(*a_))(*ex)      # a fresh function object: jax caches traces per function
+      it.retrace_differs = _jaxpr_differs(closed, closed2)
+    except Exception as e:  # noqa: BLE001
+      it.retrace_differs = f'second trace raised {type(e).__name__}: {e}'
   return outs, treedef, it
+
+
+def _jaxpr_differs(c1, c2):
+  if len(c1.consts) != len(c2.consts):
+    return f'{len(c1.consts)} vs {len(c2.consts)} constants'
+  for k, (a, b) in enumerate(zip(c1.consts, c2.consts)):
+    a = np.asarray(a); b = np.asarray(b)
+    if a.shape != b.shape or not np.array_equal(a, b, equal_nan=True):
+      d = float(np.abs(a.astype(float) - b.astype(float)).max()) if a.shape == b.shape and a.dtype.kind in 'fiu' else None
+      return f'constant {k} of shape {a.shape} changed between two traces (max abs change {d})'
+  if len(c1.jaxpr.eqns) != len(c2.jaxpr.eqns):
+    return f'{len(c1.jaxpr.eqns)} vs {len(c2.jaxpr.eqns)} equations'
+  if len(c1.jaxpr.eqns) <= 4000 and str(c1.jaxpr) != str(c2.jaxpr):
+    return 'program text (literals) changed between two traces'
+  return None
 
 
 def validate_translation(ctx: Ctx, fn, args, outs, sp: Space, npoints=2, rtol=1e-9, name=''):
@@ -282,7 +314,12 @@ def prove_close(ctx: Ctx, name, fn, args, sp: Space, *, eps=1e-9, select=None, s
       conc = [np.asarray(v, dtype=float) for v in rp['inputs']]
       out = jax.jit(fn)(*conc)
       sig = rp['signature']
-      if sig.get('kind') == 'nonfinite':
+      if sig.get('kind') == 'shape':
+        li = sig['leaf']
+        rl = jax.tree_util.tree_leaves(out[0])[li]; rr = jax.tree_util.tree_leaves(out[1])[li]
+        print(f'REPLAY {name}: shapes {np.shape(rl)} vs {np.shape(rr)}')
+        reproduced = tuple(np.shape(rl)) != tuple(np.shape(rr))
+      elif sig.get('kind') == 'nonfinite':
         bad = [i for i, o in enumerate(jax.tree_util.tree_leaves(out)) if not np.all(np.isfinite(np.asarray(o)))]
         print(f'REPLAY {name}: non-finite leaves {bad}')
         reproduced = bool(bad)
@@ -320,6 +357,18 @@ def prove_close(ctx: Ctx, name, fn, args, sp: Space, *, eps=1e-9, select=None, s
       ctx.error(name, f'non-finite constant in IR but finite outputs on replay: {e}')
       ctx.clause(name, 'error', config=config, message=str(e))
     return False
+  if getattr(it, 'retrace_differs', None) and fn is not None:
+    # hidden state: two consecutive real calls on identical inputs
+    xv = sp.random_point(ctx.rng)
+    conc = [np.asarray(a.evaluate(xv)) if is_sym(a) else np.asarray(a) for a in args]
+    o1 = [np.asarray(o) for o in jax.tree_util.tree_leaves(fn(*conc))]
+    o2 = [np.asarray(o) for o in jax.tree_util.tree_leaves(fn(*conc))]
+    dmax = max((float(np.abs(p_.astype(float) - q_.astype(float)).max(initial=0.0)) if p_.shape == q_.shape else float('inf')) for p_, q_ in zip(o1, o2)) if o1 else 0.0
+    ctx.violation(name + '.repeatable', dict(config=config, kind='history_dependent', detail=it.retrace_differs),
+                  dict(inputs=[c.tolist() for c in conc], max_abs_difference_between_two_calls=dmax),
+                  f'{name}: the program depends on the call history: {it.retrace_differs}; two consecutive real calls on identical input differ by {dmax:.3e}')
+    ctx.clause(name + '.repeatable', 'failed', config=config, queries=0)
+    return False
   tree = jax.tree_util.tree_unflatten(treedef, outs)
   if isinstance(tree, tuple) and len(tree) == 2 and ref_scale is None:
     lhs = jax.tree_util.tree_leaves(tree[0], is_leaf=is_sym)
@@ -343,6 +392,20 @@ def prove_close(ctx: Ctx, name, fn, args, sp: Space, *, eps=1e-9, select=None, s
     else:
       b_sym = b if is_sym(b) else PolyArr.const(np.asarray(b, float), sp)
       if a_sym.shape != b_sym.shape:
+        # the two sides do not even have the same shape: confirm on the real function and report as a violation
+        xv = sp.random_point(ctx.rng)
+        conc = [np.asarray(x_.evaluate(xv)) if is_sym(x_) else np.asarray(x_) for x_ in args]
+        real = jax.jit(fn)(*conc) if fn is not None else None
+        rs = None
+        if real is not None:
+          rl = jax.tree_util.tree_leaves(real[0])[li]; rr = jax.tree_util.tree_leaves(real[1])[li]
+          rs = (tuple(np.shape(rl)), tuple(np.shape(rr)))
+        if rs is not None and rs[0] != rs[1]:
+          ctx.violation(name, dict(config=config, kind='shape', leaf=li, shapes=[list(rs[0]), list(rs[1])]),
+                        dict(inputs=[c.tolist() for c in conc]),
+                        f'{name}: result has shape {rs[0]} where {rs[1]} is required (leaf {li})')
+          ctx.clause(name, 'failed', config=config, queries=0)
+          return False
         raise HarnessError(f'{name}: shape mismatch {a_sym.shape} vs {b_sym.shape}')
       diff = a_sym.add(b_sym, -1.0)
       ma = a_sym.mass(); mb = b_sym.mass()
